@@ -17,6 +17,7 @@ import OciModel.Driver.Unify
 import OciModel.Driver.UnifyConc
 import OciModel.Driver.Auth
 import OciModel.Driver.Iter
+import OciModel.Driver.SrvHandlers
 
 structure DState where
   scopes : OciModel.Driver.Scope.Regs := []
@@ -38,6 +39,7 @@ def step (st : DState) (line : String) : DState × String :=
     let (m, out) := OciModel.Driver.Mem.drive st.mem rest
     ({ st with mem := m }, out)
   | "srv" :: _ => (st, "skip")
+  | "srvh" :: rest => (st, OciModel.Driver.SrvHandlers.drive rest)
   | "auth" :: rest =>
     let (a, out) := OciModel.Driver.Auth.drive st.auth rest
     ({ st with auth := a }, out)
